@@ -240,8 +240,8 @@ class KindFacts(dict):
 
 
 def _str_consts(F, expr, var, facts) -> set:
-    """String constants an expression can evaluate to (conditional expressions decided by the kind facts)."""
-    if isinstance(expr, ast.Constant) and isinstance(expr.value, str):
+    """Constants (strings, None) an expression can evaluate to (conditional expressions decided by the kind facts)."""
+    if isinstance(expr, ast.Constant) and (isinstance(expr.value, str) or expr.value is None):
         return {expr.value}
     if isinstance(expr, ast.IfExp):
         v = tv(_Bools().visit(F.x(expr.test)), var, facts)
@@ -350,12 +350,25 @@ def containers_of_kind(project, fn, var, kind, universe=_flat_names, ctx=None, _
     return out
 
 
+class _OrNone:
+    """a universe of names that also admits None (what a function delegated to can return when nothing matches)"""
+
+    def __init__(self, universe):
+        self.u = universe.u if isinstance(universe, _OrNone) else universe
+
+    def __contains__(self, x):
+        return x is None or x in self.u
+
+
 def _delegate(project, fn, F, call, var):
-    """(callee, its parameter receiving `var`) for `f(var)` / `K.f(var)` / `self.f(var)` resolved in the package, else None."""
-    if not isinstance(call, ast.Call) or call.keywords or any(isinstance(a, ast.Starred) for a in call.args):
+    """(callee, its parameter receiving `var`, [(other parameter, the expression it is bound to)]) for `f(var, ..)` / `K.f(var, ..)` /
+    `self.f(var, ..)` resolved in the package, else None.  The other parameters are bound from the call (positional, keyword; caller
+    locals expanded) or from their defaults."""
+    if not isinstance(call, ast.Call) or any(k.arg is None for k in call.keywords) or any(isinstance(a, ast.Starred) for a in call.args):
         return None
     pos = [i for i, a in enumerate(call.args) if F.xt(a) == var]
-    if len(pos) != 1:
+    kws = [k.arg for k in call.keywords if F.xt(k.value) == var]
+    if len(pos) + len(kws) != 1:
         return None
     f = call.func
     target = None
@@ -367,25 +380,128 @@ def _delegate(project, fn, F, call, var):
         target = r[1] if r and r[0] == "func" else None
     if target is None or target.node is fn.node:
         return None
-    ps = target.params
+    a = target.node.args
+    if a.vararg or a.kwarg:
+        return None
+    ps = [x.arg for x in a.posonlyargs + a.args]
+    defaults = dict(zip(ps[len(ps) - len(a.defaults):], a.defaults))
+    for k, d in zip(a.kwonlyargs, a.kw_defaults):
+        if d is not None:
+            defaults[k.arg] = d
     if target.kind in ("method", "classmethod") and ps:
         recv_is_class = isinstance(f, ast.Attribute) and isinstance(f.value, ast.Name) and f.value.id not in ("self", "cls", fn.self_name or "")
         if not (target.kind == "method" and recv_is_class):
             ps = ps[1:]
-    return (target, ps[pos[0]]) if pos[0] < len(ps) else None
+    bound = {}
+    for i, arg in enumerate(call.args):
+        if i >= len(ps):
+            return None
+        bound[ps[i]] = arg
+    for k in call.keywords:
+        bound[k.arg] = k.value
+    subject = ps[pos[0]] if pos else kws[0]
+    others = []
+    for q in ps + [k.arg for k in a.kwonlyargs]:
+        if q == subject:
+            continue
+        if q in bound:
+            others.append((q, F.x(bound[q])))
+        elif q in defaults:
+            others.append((q, defaults[q]))
+        else:
+            return None
+    return target, subject, others
+
+
+def _bound_callee(ctx, callee, others):
+    """the view of `callee` with its other parameters turned into locals bound to what the call passes (so that a table or a
+    default handed over as an argument is seen where the callee uses it)"""
+    import copy
+
+    if not others:
+        return sem_view(ctx, callee)
+    node = copy.deepcopy(callee.node)
+    names = {q for q, _ in others}
+    a = node.args
+    nd = len(a.defaults)
+    plain = a.posonlyargs + a.args
+    keep_defaults = [d for x, d in zip(plain[len(plain) - nd:], a.defaults) if x.arg not in names] if nd else []
+    a.posonlyargs = [x for x in a.posonlyargs if x.arg not in names]
+    a.args = [x for x in a.args if x.arg not in names]
+    a.defaults = keep_defaults[-len(a.posonlyargs + a.args):] if keep_defaults and (a.posonlyargs or a.args) else []
+    kwd = [(x, d) for x, d in zip(a.kwonlyargs, a.kw_defaults) if x.arg not in names]
+    a.kwonlyargs, a.kw_defaults = [x for x, _ in kwd], [d for _, d in kwd]
+    pre = [ast.copy_location(ast.Assign(targets=[ast.Name(id=q, ctx=ast.Store())], value=copy.deepcopy(e), lineno=node.lineno), node) for q, e in others]
+    doc = node.body[:1] if node.body and isinstance(node.body[0], ast.Expr) and isinstance(node.body[0].value, ast.Constant) else []
+    node.body = doc + pre + node.body[len(doc):]
+    ast.fix_missing_locations(node)
+    return sem_view(ctx, replace_node(callee, node))
 
 
 def _containers_of(project, F, fn, var, kind, universe, ctx=None, _depth=0) -> set:
     facts = KindFacts(project, kind)
     out = set()
 
-    def values(expr):
-        """container names an assigned / returned expression can stand for: constants, or what the function it delegates to chooses"""
-        vals = {s for s in _str_consts(F, expr, var, facts) if s in universe}
-        d = _delegate(project, fn, F, F.x(expr), var) if ctx is not None and _depth < 2 else None
+    feasible = F.reach([F.g.entry], var, facts)
+
+    busy = set()
+
+    def name_values(name, at):
+        """constants (strings, None) the local `name` can hold at node `at`: the constant assignments that reach it on the
+        paths of this kind; None (the Python value) in the result = 'may be None'; UNKNOWN when something else can reach it"""
+        if (name, at) in busy or len(busy) > 40:
+            return None
+        busy.add((name, at))
+        try:
+            return _name_values(name, at)
+        finally:
+            busy.discard((name, at))
+
+    def _name_values(name, at):
+        out, unknown = set(), False
+        for m in feasible:
+            if not binds(m, name):
+                continue
+            val = m.ast.value if isinstance(m.ast, (ast.Assign, ast.AnnAssign)) else None
+            live = F.reach([x for x, _ in m.succ], var, facts, avoid=lambda x, m=m: x is not m and binds(x, name))
+            if at not in live:
+                continue
+            vs = operand(val, m) if val is not None else None
+            if vs is None:
+                unknown = True
+            else:
+                out |= vs
+        return None if unknown or not out else out
+
+    def operand(expr, at):
+        """set of constants (strings / None) an expression can evaluate to at node `at`, None when it cannot be told"""
+        e = F.x(expr)
+        cs = _str_consts(F, e, var, facts)
+        if cs:
+            return cs
+        if isinstance(e, ast.BoolOp) and isinstance(e.op, ast.Or):
+            out = set()
+            for i, v in enumerate(e.values):
+                vs = operand(v, at)
+                if vs is None:
+                    return None
+                out |= {x for x in vs if x}
+                if all(vs) and i < len(e.values) - 1:
+                    return out  # cannot be falsy: the later operands are never taken
+                if i == len(e.values) - 1:
+                    out |= {x for x in vs if not x}
+            return out
+        if isinstance(e, ast.Name):
+            return name_values(e.id, at)
+        d = _delegate(project, fn, F, e, var) if ctx is not None and _depth < 2 else None
         if d is not None:
-            vals |= containers_of_kind(project, sem_view(ctx, d[0]), d[1], kind, universe, ctx, _depth + 1)
-        return vals
+            return containers_of_kind(project, _bound_callee(ctx, d[0], d[2]), d[1], kind, _OrNone(universe), ctx, _depth + 1)
+        return None
+
+    def values(expr, at):
+        """container names an assigned / returned expression can stand for"""
+        vs = operand(expr, at)
+        return {x for x in (vs or ()) if x in universe}
 
     def binds(m, name):
         if m.kind != "stmt" or not isinstance(m.ast, (ast.Assign, ast.AnnAssign, ast.AugAssign)):
@@ -405,11 +521,21 @@ def _containers_of(project, F, fn, var, kind, universe, ctx=None, _depth=0) -> s
             vs = r.value.values if isinstance(r.value, ast.BoolOp) else [r.value]
             direct_results |= {v.id for v in vs if isinstance(v, ast.Name)}
 
-    for n in F.reach([F.g.entry], var, facts):
+    falls_through = False
+    for n in feasible:
+        if n.kind == "return":
+            rv = operand(n.ast, n) if n.ast is not None else {None}
+            if rv is not None and None in rv:
+                falls_through = True
+        elif F.g.exit in [m for m, _ in n.succ]:
+            falls_through = True
+    if falls_through and None in universe:
+        out.add(None)
+    for n in feasible:
         if n.kind == "return" and n.ast is not None:
-            out |= values(n.ast)
+            out |= values(n.ast, n)
         elif n.kind == "stmt" and isinstance(n.ast, (ast.Assign, ast.AnnAssign)) and n.ast.value is not None:
-            vals = values(n.ast.value)
+            vals = values(n.ast.value, n)
             if not vals:
                 continue
             tgs = n.ast.targets if isinstance(n.ast, ast.Assign) else [n.ast.target]
@@ -574,6 +700,18 @@ def _table_rows(project, fn, F, it, arity):
     items = False
     if isinstance(it, ast.Call) and isinstance(it.func, ast.Attribute) and it.func.attr == "items" and not it.args:
         it, items = it.func.value, True
+    if isinstance(it, ast.BinOp) and isinstance(it.op, ast.Add) and not items:
+        # two tables chained: T1 + T2
+        def side(e):
+            x = F.x(e)
+            if not isinstance(x, (ast.Tuple, ast.List, ast.BinOp)):
+                x = _hoisted(project, fn, x) or x
+            return [] if isinstance(x, (ast.Tuple, ast.List)) and not x.elts else _table_rows(project, fn, F, e, arity)
+
+        left, right = side(it.left), side(it.right)
+        if left is None or right is None or not 0 < len(left) + len(right) <= 12:
+            return None
+        return left + right
     if not isinstance(it, (ast.Dict, ast.Tuple, ast.List)):
         it = _hoisted(project, fn, it)
     if items:
@@ -704,9 +842,52 @@ def replace_node(fn, node):
     return FuncInfo(name=fn.name, module=fn.module, node=node, cls=fn.cls, kind=fn.kind, prop=fn.prop)
 
 
+class _Retire(ast.NodeTransformer):
+    """Names made by an earlier expansion pass (`x__i3`) get a pass-specific suffix, so that a later pass (which numbers its own
+    temporaries from 1 again) cannot reuse them."""
+
+    def __init__(self, tag):
+        self.tag = tag
+
+    def _r(self, name):
+        import re
+
+        return re.sub(r"__i(\d+)$", lambda m: f"__{self.tag}{m.group(1)}", name) if name else name
+
+    def visit_Name(self, n):
+        n.id = self._r(n.id)
+        return n
+
+    def visit_ExceptHandler(self, n):
+        self.generic_visit(n)
+        n.name = self._r(n.name)
+        return n
+
+
+def _drop_dead_inits(stmts):
+    """`t = None` directly followed by an unconditional `t = <expr>` (the result variable of an expanded one-line helper): the
+    first assignment goes, so that t is a single-assignment local that alias expansion sees through."""
+    out = []
+    for i, s in enumerate(stmts):
+        for fld in ("body", "orelse", "finalbody"):
+            b = getattr(s, fld, None)
+            if isinstance(b, list) and b and isinstance(b[0], ast.stmt):
+                setattr(s, fld, _drop_dead_inits(b))
+        for h in getattr(s, "handlers", []) or []:
+            h.body = _drop_dead_inits(h.body)
+        nxt = stmts[i + 1] if i + 1 < len(stmts) else None
+        if isinstance(s, ast.Assign) and len(s.targets) == 1 and isinstance(s.targets[0], ast.Name) and isinstance(s.value, ast.Constant) and s.value.value is None \
+                and isinstance(nxt, ast.Assign) and len(nxt.targets) == 1 and isinstance(nxt.targets[0], ast.Name) and nxt.targets[0].id == s.targets[0].id \
+                and not any(isinstance(y, ast.Name) and y.id == s.targets[0].id for y in ast.walk(nxt.value)):
+            continue
+        out.append(s)
+    return out
+
+
 def sem_view(ctx, spec_or_fn):
     """The view the C05 rules look at: loops in disguise made explicit, helpers expanded and constants substituted
-    (ctx.view), loops over literal tables unrolled, and the helpers those tables named expanded in turn."""
+    (ctx.view), the same again on what the helpers brought in, loops over literal tables unrolled, and the helpers those
+    tables named expanded in turn."""
     import copy
 
     fn = ctx.p.func(spec_or_fn) if isinstance(spec_or_fn, str) else spec_or_fn
@@ -724,13 +905,28 @@ def sem_view(ctx, spec_or_fn):
         keep.append(src)
     v = ctx.view(src)
     keep.append(v)
-    for _ in range(2):
+
+    def again(node, tag):
+        node = _Retire(tag).visit(node)
+        ast.fix_missing_locations(node)
+        u = replace_node(fn, node)
+        keep.append(u)
+        w = ctx.view(u)
+        keep.append(w)
+        return w
+
+    # what the expanded helpers brought in: dead initialisations of their result variables, their own loops in disguise
+    node = copy.deepcopy(v.node)
+    before = ast.dump(node)
+    node.body = _drop_dead_inits(node.body)
+    lf2 = _Loopify()
+    node = lf2.visit(node)
+    if lf2.changed or ast.dump(node) != before:
+        v = again(node, "a")
+    for i in range(2):
         node, changed = unroll_tables(ctx.p, v)
         if not changed:
             break
-        u = replace_node(fn, node)
-        keep.append(u)
-        v = ctx.view(u)
-        keep.append(v)
+        v = again(node, "bc"[i])
     memo[key] = keep
     return v
